@@ -1234,6 +1234,16 @@ JANET_CORE_FN(cfun_channel_choice,
         janet_panic("cannot select from channel inside janet_call");
     }
 
+    /* Validate every clause before taking any lock - a type error raised while
+     * scanning would leave the channels of the earlier clauses locked. */
+    for (int32_t i = 0; i < argc; i++) {
+        if (janet_indexed_view(argv[i], &data, &len) && len == 2) {
+            janet_getchannel(data, 0);
+        } else {
+            janet_getchannel(argv, i);
+        }
+    }
+
     /* Check channels for immediate reads and writes */
     for (int32_t i = 0; i < argc; i++) {
         if (janet_indexed_view(argv[i], &data, &len) && len == 2) {
